@@ -79,6 +79,10 @@ def run_job(job):
                 return val_of(v), val_of(index_fn(v))[()]
         for o in ex.explore(run):
             if o.exc is not None:
+                from ..harness import exc_origin
+                if exc_origin(o.exc) == "harness":
+                    ob.fail_harness(f"harness raised: {o.exc!r}")
+                    continue
                 ob.fail_harness(f"index_fn raised {o.exc!r} for box {tag}")
                 continue
             v, idx = o.value
